@@ -252,6 +252,11 @@ def run_driver(driver, lines):
 _MOD = None
 
 
+# exceptions that say something about the machine, not about the implementation under test
+INFRA_EXCEPTIONS = ("MemoryError", "OSError", "IOError", "BrokenPipeError", "FileNotFoundError", "PermissionError",
+                    "TimeoutError", "KeyboardInterrupt", "ModuleNotFoundError", "ImportError", "BlockingIOError")
+
+
 def _init_worker(modname):
     global _MOD
     warnings.filterwarnings("ignore")
@@ -437,9 +442,21 @@ def main(modname, argv):
     descs = load_corpus(prop) + list(mod.cases(rng, tier))
     results = evaluate_all(mod, descs, jobs)
     herr = [(d, r["harness_error"]) for d, r in zip(descs, results) if "harness_error" in r]
-    if herr:
-        print("INFRA: harness error on case %s:\n%s" % (json.dumps(herr[0][0], default=str)[:500], herr[0][1]))
+    infra = [h for h in herr if h[1].split(":")[0] in INFRA_EXCEPTIONS]
+    if infra:
+        print("INFRA: harness error on case %s:\n%s" % (json.dumps(infra[0][0], default=str)[:500], infra[0][1]))
         return 2
+    # The harness code is fixed and never raises on the unchanged tree (every module maps the implementation's
+    # exceptions to tokens itself).  An exception escaping `evaluate` therefore means the implementation now returns
+    # something the harness cannot even observe (a tuple where a dict was, a missing attribute, ...): that is a
+    # broken correspondence, handled like any other — search for a failing input, report either way.
+    harness_broken = []
+    if herr:
+        harness_broken.append("correspondence(harness): evaluate could not observe the implementation on %d case(s), first: case=%s error=%s" % (
+            len(herr), json.dumps(herr[0][0], default=str)[:600], herr[0][1][-700:]))
+        for r in results:
+            if "harness_error" in r:
+                r.update({"requests": [], "impl": [], "oracle": [], "key": None, "info": None})
 
     mismatches = []  # (case index, obs index, request, impl, model)
     n_obs = 0
@@ -487,7 +504,7 @@ def main(modname, argv):
         print("DEBUG broken:", lean["broken"], lean["log"][-1500:] if lean["broken"] else "")
 
     # ---- extended search when an obligation or the correspondence broke but no failing input is at hand
-    broken = list(lean["broken"])
+    broken = list(lean["broken"]) + harness_broken
     if mismatches:
         broken.append("correspondence(%s): %d observation(s) differ, first: request=%r impl=%r model=%r" % (
             mod.DRIVER, len(mismatches), mismatches[0][2][:300], mismatches[0][3][:300], mismatches[0][4][:300]))
@@ -566,6 +583,7 @@ def main(modname, argv):
     elif broken:
         payload = {"property": prop, "seed": seed, "tier": tier, "kind": "no-failing-input-found",
                    "broken_obligations": broken, "searched_cases": searched + len(descs),
+                   "unobservable_case": (None if not herr else {"case": herr[0][0], "error": herr[0][1]}),
                    "first_mismatch": (None if not mismatches else {
                        "case": descs[mismatches[0][0]], "request": mismatches[0][2],
                        "impl": mismatches[0][3], "model": mismatches[0][4]}),
